@@ -231,6 +231,9 @@ def _pure(e) -> bool:
         return all(_pure(v) for v in e.values)
     if isinstance(e, ast.UnaryOp) and isinstance(e.op, ast.Not):
         return _pure(e.operand)
+    if isinstance(e, ast.Compare) and len(e.ops) == 1 and isinstance(e.ops[0], (ast.Is, ast.IsNot)) \
+            and isinstance(e.comparators[0], ast.Constant) and e.comparators[0].value is None:
+        return _pure(e.left)            # round 7: `x is [not] None` (identity: no user code runs)
     return False
 
 
